@@ -59,7 +59,7 @@ func layoutState(w *World) (broken bool, reason string) {
 	return false, ""
 }
 
-var c18Dirs = []string{"", "", "ca", "ca/sub", "x/y/z", "users", ".staging", "ca/.old"}
+var c18Dirs = []string{"", "", "ca", "ca/sub", "x/y/z", "users", ".staging", "ca/.old", "v1.0", "my dir", "ca.d/sub.d", "zürich", "a.yaml.d", "İstanbul", "\u212a1", "ẞ"}
 var c18Exts = []string{"yaml", "yaml", "yml", "json", "YAML", "Yml", "JSON", "yAmL", "jSoN"}
 
 func genC18(r *Rng, tier string) *Plan {
@@ -81,7 +81,7 @@ func genC18(r *Rng, tier string) *Plan {
 		if r.Chance(1, 6) {
 			e.Name = fmt.Sprintf("e%d.prod", i)
 		} else if r.Chance(1, 8) {
-			e.Name = Pick(r, []string{"my root %d", "zürich-ca-%d", "日本%d", "ca+%d", "x=%d", "(%d)"})
+			e.Name = Pick(r, []string{"my root %d", "zürich-ca-%d", "日本%d", "ca+%d", "x=%d", "(%d)", "İ%d", "\u212a%d", "Å%d"})
 			e.Name = fmt.Sprintf(e.Name, i)
 		}
 		if i > 0 && r.Chance(3, 4) {
